@@ -37,8 +37,10 @@ structure Tok where
   num : NumClass := .na
   deriving DecidableEq, Repr, Inhabited
 
-/-- All `NextToken()` results up to the call after which `pos > len(input)` (from then on the
-lexer returns the end marker for ever, with no whitespace in front), and that repeated marker. -/
+/-- All `NextToken()` results up to the point where the lexer is stuck on its end marker (its position
+is past the end of the input, or a further call returns the marker again without moving), and the
+marker every later call returns (no whitespace in front).  An end marker in the middle of `toks`
+(embedded NUL with the lexer as shipped) is an ordinary element. -/
 structure TokStream where
   toks : List Tok
   /-- the end marker every later call returns (EOF in file mode, EOL in line mode) -/
